@@ -5168,6 +5168,15 @@ func (p *parser) parseExprOrLetOrUsingStmt(opts parseStmtOpts) (js_ast.Expr, js_
 		return p.parseSuffix(expr, js_ast.LLowest, nil, 0), js_ast.Stmt{}, nil
 	}
 
+	// Handle the start of an arrow expression: "let => {}" or "using => {}"
+	if p.lexer.Token == js_lexer.TEqualsGreaterThan {
+		arg := js_ast.Arg{Binding: js_ast.Binding{Loc: tokenRange.Loc, Data: &js_ast.BIdentifier{Ref: p.storeNameInRef(name)}}}
+		p.pushScopeForParsePass(js_ast.ScopeFunctionArgs, tokenRange.Loc)
+		arrow := p.parseArrowBody([]js_ast.Arg{arg}, fnOrArrowDataParse{needsAsyncLoc: tokenRange.Loc})
+		p.popScope()
+		return p.parseSuffix(js_ast.Expr{Loc: tokenRange.Loc, Data: arrow}, js_ast.LLowest, nil, 0), js_ast.Stmt{}, nil
+	}
+
 	// Parse the remainder of this expression that starts with an identifier
 	expr := js_ast.Expr{Loc: tokenRange.Loc, Data: &js_ast.EIdentifier{Ref: p.storeNameInRef(name)}}
 	return p.parseSuffix(expr, js_ast.LLowest, nil, 0), js_ast.Stmt{}, nil
